@@ -242,9 +242,16 @@ def interior_diff(case_a, case_b):
 
 def metamorphic(run):
     base = [{"family": "C", "eq": {}, "options": {"nx": 4, "ny": 8, "r_inner": 0.1, "r_outer": 0.3, "R0": 1.3, "q_coefficients": [2.5], "orthogonal": True, "finecontour_Nfine": 100}}]
-    if run.tier != "quick":
-        base.append({"family": "G", "eq": {"topology": "lsn", "sign": 1.0, "fpol": [2.0, 0.1, 0, 0]},
-                     "options": {"orthogonal": True, "nx_core": 3, "nx_sol": 3, "ny_inner_divertor": 4, "ny_outer_divertor": 4, "ny_sol": 8, "finecontour_Nfine": 100}})
+    # tokamak members with psi decreasing (sign +1) and increasing (sign -1) outwards: the x-y form
+    # once carried a factor bpsign too many, invisible on the circular case
+    gs = [("lsn", 1.0)] if run.tier == "quick" else [("lsn", 1.0), ("lsn", -1.0), ("usn", 1.0), ("cdn", 1.0), ("cdn", -1.0)]
+    for top, sign in gs:
+        o = {"orthogonal": True, "nx_core": 3, "nx_sol": 3, "finecontour_Nfine": 100}
+        if top == "cdn":
+            o.update({k: 4 for k in ["ny_inner_lower_divertor", "ny_inner_upper_divertor", "ny_outer_lower_divertor", "ny_outer_upper_divertor", "ny_inner_sol", "ny_outer_sol"]})
+        else:
+            o.update(ny_inner_divertor=4, ny_outer_divertor=4, ny_sol=8)
+        base.append({"family": "G", "eq": {"topology": top, "sign": sign, "fpol": [2.0, 0.1, 0, 0]}, "options": o})
     descs = []
     for b in base:
         for mult in (1, 2):
